@@ -47,3 +47,16 @@ def attempt(f):
 
 async def _alist(ait):
     return [m async for m in ait]
+
+
+def used_before(c, doc, ctx=None, other_ctx=None):
+    """a compiled query is not new when it is applied: it was already applied to this very document object - once with
+    another filter context, once abandoned after the first match.  Nothing of that may show in what it returns next."""
+    try:
+        if other_ctx is not None:
+            list(c.finditer(doc, filter_context=other_ctx))
+        it = iter(c.finditer(doc, filter_context=ctx) if ctx is not None else c.finditer(doc))
+        next(it, None)
+        del it
+    except Exception:  # noqa: BLE001
+        pass
